@@ -28,10 +28,17 @@ const (
 	cookieName = "sid"
 	headerName = "X-Sid"
 	queryName  = "sid"
+
+	// unissuedID is what M presents as "an id in the server's format the server never issued":
+	// the counter KeyGenerator starts at s1, and s0 has the length of the ids users really
+	// hold (a forger knows what ids look like).
+	unissuedID = "s0"
 )
 
 // ---------------------------------------------------------------------------
-// injected storage: TTLs on the harness clock
+// injected storage: TTLs on the harness clock. It is an ordinary map-based third-party
+// storage: it keeps the key string it is handed (Go strings are immutable, a storage has no
+// reason to copy them) - handing it keys that stay valid is the session package's business.
 
 type ttlEntry struct {
 	val []byte
@@ -56,7 +63,10 @@ func (s *ttlStorage) Set(key string, val []byte, ttl time.Duration) error {
 	if ttl > 0 {
 		exp = s.w.now + int(ttl/time.Second)
 	}
-	s.data[utils.CopyString(key)] = ttlEntry{append([]byte(nil), val...), exp}
+	// deliberately no copy of key; assigning to an existing string key makes the map keep
+	// the string it was given last (delete+insert says so independently of the runtime)
+	delete(s.data, key)
+	s.data[key] = ttlEntry{append([]byte(nil), val...), exp}
 	return nil
 }
 func (s *ttlStorage) Delete(key string) error { delete(s.data, key); return nil }
@@ -109,6 +119,10 @@ type world struct {
 	cl      [2]client
 	m       *model
 	obs     *obsT
+
+	fctx        *fasthttp.RequestCtx // Ctx=shared: the one RequestCtx of this history
+	lastID      string               // Ctx=shared: the id the previous id-carrying request on fctx presented
+	overwritten bool                 // the last request overwrote another id of the same length in the shared request buffers
 }
 
 func (w *world) setClock() {
@@ -311,21 +325,41 @@ func (w *world) presentedBy(ci int) string {
 	return c.held
 }
 
+// request builds a request that presents id (if any). Whatever the source, the id sits at
+// the same position of its container in every request (first query argument, first header,
+// first cookie), as it does for clients of one application: on a shared RequestCtx the next
+// request's id then lands in the buffer that held the previous one.
 func (w *world) request(path, id string, hdr ...string) *fasthttp.Request {
 	uri := "http://x.test" + path
 	if w.cfg.Source == "query" && id != "" {
 		uri += "?" + queryName + "=" + id
 	}
+	if id != "" && w.cfg.Source == "header" {
+		hdr = append([]string{headerName, id}, hdr...)
+	}
 	req := fx.Req("GET", uri, hdr...)
-	if id != "" {
-		switch w.cfg.Source {
-		case "cookie":
-			req.Header.Set("Cookie", cookieName+"="+id)
-		case "header":
-			req.Header.Set(headerName, id)
-		}
+	if id != "" && w.cfg.Source == "cookie" {
+		req.Header.Set("Cookie", cookieName+"="+id)
 	}
 	return req
+}
+
+// requestCtx returns the RequestCtx the next request is served on.
+func (w *world) requestCtx() *fasthttp.RequestCtx {
+	if w.cfg.Ctx != "shared" {
+		return &fasthttp.RequestCtx{} // fresh
+	}
+	if w.fctx == nil {
+		w.fctx = &fasthttp.RequestCtx{}
+		return w.fctx
+	}
+	// what fasthttp's serveConn does before the next request of a connection and
+	// releaseCtx/acquireCtx do between connections: userValues.Reset, Request.Reset,
+	// Response.Reset (fx.CallInto does the latter two; Init2 leaves the user values alone)
+	w.fctx.ResetUserValues()
+	w.fctx.Request.Reset()
+	w.fctx.Response.Reset()
+	return w.fctx
 }
 
 // parseSetCookie is the client's own reading of one Set-Cookie value (RFC 6265 section 5.2,
@@ -435,7 +469,7 @@ func (w *world) exec(op Op) (o *obsT, na bool) {
 		case "evil":
 			o.Present = "evil"
 		case "unissued":
-			o.Present = "s999" // the server's format, never issued within the bounds
+			o.Present = unissuedID // the server's format and the length of real ids, never issued
 		case "destroyed":
 			o.Present = w.m.lastKilled
 		case "stolen":
@@ -454,7 +488,12 @@ func (w *world) exec(op Op) (o *obsT, na bool) {
 		}
 		req = w.request("/adm", "", "X-Act", op.Act, "X-Target", o.Present, "X-K", op.K, "X-V", op.V)
 	}
-	fctx := &fasthttp.RequestCtx{} // fresh: Init2 does not clear user values (fiber Locals)
+	fctx := w.requestCtx()
+	w.overwritten = false
+	if w.cfg.Ctx == "shared" && op.Kind != kAdmin && o.Present != "" {
+		w.overwritten = w.lastID != "" && w.lastID != o.Present && len(w.lastID) == len(o.Present)
+		w.lastID = o.Present
+	}
 	func() {
 		defer func() {
 			if r := recover(); r != nil {
